@@ -16,7 +16,7 @@ META = dict(
     "(torch.equal) with an independent record, including architecture, unitary dictionary (with a user-added unitary), stored "
     "metadata, and the caller's metadata object and the saved model being unchanged",
     functions=["qucumber/nn_states/neural_state.py: save, load", "qucumber/nn_states/*: autoload, __init__ (module=)", "torch.save / torch.load (real)"],
-    bounds=dict(quick="histories of 3 operations over 2 files; positive (2,3), complex (2,3) with a user-added unitary, mixed (2,3,1), mixed built from a user-supplied module; metadata dict (nested, tensor-valued)",
+    bounds=dict(quick="histories of 3 operations over 2 files; positive (2,3), complex (2,3) with a user-added unitary, mixed (2,3,1), mixed built from a user-supplied module; metadata dict (nested, tensor-valued, keys containing reserved names); operations incl. overwrite-and-reload of one path; user dictionary without the default Y; receiver and bystander sharing one dictionary",
                 thorough="histories of 4 operations"),
     outside=["devices other than CPU", "metadata values that torch cannot serialise", "histories longer than the bound"],
     stubs=["training is represented by an in-place perturbation of all parameters"],
